@@ -297,8 +297,16 @@ fn run_crash_history(
                 }
                 origin.insert(to.clone(), o);
             }
-            if ex.step(&op).is_err() {
-                // functional divergence is C01/C13's business; stop this history
+            if let Err(m) = ex.step(&op) {
+                // compact() must not alter any live region: a divergence right after it is C12's
+                if matches!(op, ROp::Compact) && prop == "C12" {
+                    return Some(Found {
+                        sig: format!("compact-altered-state|{}", m.sig),
+                        what: format!("compact() changed the observable state: {}", m.what),
+                        detail: json!({"ops": crate::c_raw::ops_json(&ops), "mismatch": m.what}),
+                    });
+                }
+                // any other functional divergence is C01/C13's business; stop this history
                 stats.stats.bump("history_aborted_on_model_mismatch");
                 return None;
             }
